@@ -871,6 +871,9 @@ inline GenOpts makeProfile(Rng &rng, const std::string &name) {
     o.utilLo = 0.85; o.utilHi = 1.1; o.maxCells = 60;
   } else if (name == "obstruction") {
     o.maxFixed = 6; o.obstructionProb = 0.95;
+  } else if (name == "alltall") {
+    // every movable cell three or four rows high on rows as narrow as the domain allows; one or two short fixed cells
+    o.polarity = false; o.turned = false; o.multiRowProb = 1.0; o.minMultiRows = (int)rng.range(3, 4); o.narrowRows = true; o.maxRows = 12; o.maxFixed = 2; o.maxCells = std::min(o.maxCells, 12);
   } else if (name == "allturned") {
     // only turned cells, most of them several rows high once placed: the stored heights are the placed widths
     o.turned = true; o.allTurned = true; o.polarity = false; o.multiRowProb = rng.chance(0.5) ? 1.0 : 0.6; o.maxRows = 12; o.maxFixed = 1;
